@@ -342,31 +342,50 @@ def replay(mod, C, cfg, valuation, want=None):
             o = RZ.back.get(id(robj))
             if o is not None and isinstance(o, Obj):
                 RZ.refresh(o, robj)
-        clauses = []
-        if out[0] == 'return':
-            res = RZ.lift(out[1])
-            for label, phi in C.post(E, st, res):
-                clauses.append(('post', label, phi))
-            for exc, cond in C.raises(E, st):
-                clauses.append(('raises', f'returns normally => not [{exc} condition]', negate(cond)))
-            for nm, o, sn in frame:
-                if nm not in getattr(C, 'modifies', ()):
-                    clauses.append(('frame', f'{nm} unchanged', same_value(E, o, sn)))
-        else:
-            conds = [c for exc, c in C.raises(E, st) if exc == out[1]]
-            clauses.append(('raises', f'{out[1]} raised => its stated condition holds', disj(conds)))
-            for nm, o, sn in frame_r:
-                clauses.append(('frame', f'{nm} unchanged on the {out[1]} path', same_value(E, o, sn)))
+        res = RZ.lift(out[1]) if out[0] == 'return' else None
+
+        def clauses_for(choice):
+            E._sk_choice, E._sk_n, E._sk_shapes = choice, 0, {}
+            cl = []
+            if out[0] == 'return':
+                for label, phi in C.post(E, st, res):
+                    cl.append(('post', label, phi))
+                for exc, cond in C.raises(E, st):
+                    cl.append(('raises', f'returns normally => not [{exc} condition]', negate(cond)))
+                for nm, o, sn in frame:
+                    if nm not in getattr(C, 'modifies', ()):
+                        cl.append(('frame', f'{nm} unchanged', same_value(E, o, sn)))
+            else:
+                conds = [c for exc, c in C.raises(E, st) if exc == out[1]]
+                cl.append(('raises', f'{out[1]} raised => its stated condition holds', disj(conds)))
+                for nm, o, sn in frame_r:
+                    cl.append(('frame', f'{nm} unchanged on the {out[1]} path', same_value(E, o, sn)))
+            return cl
         if C.unspecified is not None:
+            E._sk_choice = None
             u = C.unspecified(E, st)
             if TE.teval(u if not isinstance(u, bool) else z3.BoolVal(u)):
                 info.update(reproduced=False, note='input lies in the band the contract leaves unspecified')
                 return info
+        # generic (Skolem) indices of the contract are enumerated over the concrete arrays: a clause fails if it fails at some index
+        clauses_for({})
+        shapes = dict(getattr(E, '_sk_shapes', {}))
+        import itertools as _it
+        keys = sorted(shapes)
+        spaces = [list(_it.product(*[range(d) for d in shapes[k]])) for k in keys]
+        combos = _it.islice(_it.product(*spaces), 6000) if keys else [()]
         failing = []
-        for kind, label, phi in clauses:
-            ok = phi if isinstance(phi, bool) else TE.teval(phi)
-            if not ok:
-                failing.append(f'{kind}:{label}')
+        witness = {}
+        for combo in combos:
+            choice = dict(zip(keys, combo))
+            for kind, label, phi in clauses_for(choice):
+                ok = phi if isinstance(phi, bool) else TE.teval(phi)
+                if not ok and f'{kind}:{label}' not in failing:
+                    failing.append(f'{kind}:{label}')
+                    witness[f'{kind}:{label}'] = [list(x) for x in combo]
+        E._sk_choice = None
+        if witness:
+            info['failing_at_index'] = witness
         info['observed'] = out[0] if out[0] == 'return' else f'{out[1]}: {out[3]}'
         info['failing_clauses_on_real_code'] = failing
         info['reproduced'] = bool(failing) if want is None else any(w in f for f in failing for w in [want]) or bool(failing)
@@ -429,6 +448,10 @@ def run_task(args):
             if status == 'error':
                 res['error'] = reason
             res['obligations'].append(rec)
+    except ControlNotApplicable as e:
+        # the source no longer contains the text this control mutates: the control says nothing (recorded, not an error;
+        # the obligations of the real source are generated and judged independently of the controls)
+        res['skipped_control'] = str(e)
     except Unsupported as e:
         res['obligations'].append({'key': f'{prop}/{cname}/engine', 'id': f'{prop}/{cname}/engine[{cfg_str(cfg)}]', 'config': cfg_str(cfg), 'kind': 'engine',
                                    'text': 'function within the supported subset', 'status': 'undecided', 'backend': 'pyvc',
@@ -439,9 +462,13 @@ def run_task(args):
     return res
 
 
+class ControlNotApplicable(Exception):
+    pass
+
+
 def apply_mutation(text, m):
     if m['old'] not in text:
-        raise RuntimeError(f"negative control {m.get('name')} does not apply to the current source (pattern not found)")
+        raise ControlNotApplicable(f"negative control pattern not found in the current source")
     return text.replace(m['old'], m['new'], 1)
 
 
@@ -636,6 +663,9 @@ def run_property(mod, prop, tier, seed, jobs):
         nm = r['mutant']
         failed = [o for o in r['obligations'] if o['status'] == 'failed']
         neg[nm] = {'failed_obligations': len(failed), 'example': failed[0]['key'] if failed else None}
+        if r.get('skipped_control'):
+            neg[nm] = {'skipped': r['skipped_control']}
+            continue
         if r['error']:
             errors.append({'negative_control': nm, 'error': r['error']})
         elif not failed:
